@@ -105,6 +105,39 @@ def impl_line(impl, h):
     return o[0]
 
 
+def prop_view(line):
+    """the observables the property talks about: error codes, and for every linked module what each
+    IMPORT is bound to (address identity / value obtained through it).  Dropped: the order and
+    multiplicity of resolver calls and the module-local export/forward bindings (these only tie the
+    model to the code more tightly)."""
+    import re
+    out = []
+    for st in line.split(' | '):
+        if st.startswith('ok res='):
+            mods = re.findall(r'(m\d+)\{([^}]*)\}', st)
+            out.append('ok ' + ' '.join('%s{%s}' % (m, ' '.join(b for b in bs.split() if b.startswith('i')))
+                                        for m, bs in mods))
+        else:
+            out.append(st)
+    return ' | '.join(out)
+
+
+def prop_pair(a, b):
+    """(implementation, model) restricted to the property's observables.  A step the model rejects
+    with `repeated_decl*` (a function clashing with something that is NOT an exported MIR function:
+    the property text does not speak about it) ends the property-level comparison."""
+    sa, sb = a.split(' | '), b.split(' | ')
+    for i, t in enumerate(sb):
+        if t == 'E:repeated_decl*':
+            sa, sb = sa[:i], sb[:i]
+            break
+    return prop_view(' | '.join(sa)), prop_view(' | '.join(sb))
+
+
+def full_eq(a, b):
+    return a == b.replace('E:repeated_decl*', 'E:repeated_decl')
+
+
 def correspond(impl, model, hs):
     rc2, o2, e2 = run_parallel(model, hs)
     if rc2 != 0 or len(o2) != len(hs):
@@ -112,22 +145,29 @@ def correspond(impl, model, hs):
     rc1, o1, e1 = run_parallel(impl, hs)
     bad = []
     for h, a, b in zip(hs, o1, o2):
-        if a != b:
+        if not full_eq(a, b):
             if a == '<missing>':
                 a = impl_line(impl, h)
-                if a == b:
+                if full_eq(a, b):
                     continue
             bad.append((h, a, b))
     return bad
 
 
-def shrink(impl, model, h):
+def differs(a, b, prop):
+    if prop:
+        x, y = prop_pair(a, b)
+        return x != y
+    return not full_eq(a, b)
+
+
+def shrink(impl, model, h, prop=False):
     ops = [o.strip() for o in h.split(';') if o.strip()]
 
     def fails(sub):
         s = ' ; '.join(sub)
         b = vlib.run_lines(model, [s])[1]
-        return bool(b) and impl_line(impl, s) != b[0]
+        return bool(b) and differs(impl_line(impl, s), b[0], prop)
     sub = vlib.shrink_list(ops, fails)
     # also try dropping single declarations inside each L op
     changed = True
@@ -209,18 +249,29 @@ def run(chk):
         last = steps[-1] if steps else ''
         chk.dist('outcome', last.split()[0] if last else 'empty')
         chk.dist('links_completed', min(8, sum(1 for s in steps if s.startswith('ok res='))))
+    prop_bad = [x for x in bad if differs(x[1], x[2], True)]
     seen = set()
-    for h, a, b in bad[:40]:
-        small = shrink(impl, model, h)
+    for h, a, b in prop_bad[:40]:
+        small = shrink(impl, model, h, True)
         if small in seen:
             continue
         seen.add(small)
         ia = impl_line(impl, small)
         mb = vlib.run_lines(model, [small])[1][0]
         chk.finding('diff:' + small, dict(history=small, impl=ia, model=mb, original=h),
-                    'C13 %s on history: %s' % (classify(small, ia, mb), small))
+                    'C13 %s on history: %s' % (classify(small, *prop_pair(ia, mb)), small))
         if len(seen) >= 3:
             break
+    if bad and not prop_bad:
+        h, a, b = bad[0]
+        small = shrink(impl, model, h)
+        ia = impl_line(impl, small)
+        mb = vlib.run_lines(model, [small])[1][0]
+        chk.finding('tie:link-trace', dict(correspondence='C13 Link.v vs mir.c on resolver-call order / local export+forward bindings',
+                                           history=small, impl=ia, model=mb, disagreements=len(bad),
+                                           searched='%d histories: all error codes and import bindings agreed' % len(hs)),
+                    'C13 model/implementation tie broken (%s) but every import binding and error code agrees; e.g. %s' % (
+                        classify(small, ia, mb), small), no_input=True)
     if not quick and not bad:
         # sanitizer build on a sample
         try:
@@ -229,10 +280,10 @@ def run(chk):
             rc, o, e = vlib.run_lines(impl_asan, sample, timeout=3000,
                                       env={'ASAN_OPTIONS': 'detect_leaks=0', 'UBSAN_OPTIONS': 'print_stacktrace=1'})
             mo = vlib.run_lines(model, sample)[1]
-            if rc != 0 or o != mo:
+            if rc != 0 or len(o) != len(mo) or not all(full_eq(x, y) for x, y in zip(o, mo)):
                 for h, b in zip(sample, mo):
                     rc1, o1, e1 = vlib.run_lines(impl_asan, [h], timeout=120, env={'ASAN_OPTIONS': 'detect_leaks=0'})
-                    if rc1 != 0 or o1 != [b]:
+                    if rc1 != 0 or len(o1) != 1 or not full_eq(o1[0], b):
                         chk.finding('asan:' + h, dict(history=h, impl=o1, stderr=e1[-1500:], model=b),
                                     'C13 sanitizer build disagrees/crashes on history: %s' % h)
                         break
@@ -252,4 +303,4 @@ def replay(chk, path):
     print('history:', h)
     print('impl :', a)
     print('model:', b[0] if b else None)
-    return 0 if b and a == b[0] else 1
+    return 0 if b and full_eq(a, b[0]) else 1
